@@ -19,12 +19,14 @@ RULE = ("documents: a catalogue of ~60 shapes (anchored / aliased scalars, seque
         "aliased members; scalar documents; keys that need escaping or that the notation cannot express) and seeded random "
         "documents (depth <= 3, same features) x the 9 operators x plain/inverted x a term alphabet (incl. regular "
         "expressions, answered for the model by Python re) x {values, keys, keys-only} x the four alias-inclusion modes x "
-        "--refnames on/off x expand on/off x both notations: the catalogue is crossed with ALL 96 option mixes, random "
+        "--refnames on/off x expand on/off x the THREE separators the tool accepts (PathSeparators DOT, FSLASH and AUTO - `--pathsep auto`, "
+        "which renders dot notation; handed to search_for_paths as the enum member and to main() as the option): the catalogue is crossed with ALL 144 option mixes, random "
         "documents with a seeded sample of them.  Per case: the real search_for_paths is called in-process and the list of "
         "str(path) in order is compared with the Lean model (whose address list is proved equal to the specification "
         "Spec.found); then EVERY printed path is fed to the real Processor.get_nodes(mustexist=True) on the same document and "
         "must resolve to exactly the node the model reported it for (object identity for containers / anchored scalars, "
-        "parent object + reference for plain scalars).  A sample goes through yaml_paths.main() on a dumped file (stdout vs "
+        "parent object + reference for plain scalars); where the printed list differs from the specification's only in how a path is "
+        "written, the printed text is resolved too and must lead to the node reported at that place.  A sample goes through yaml_paths.main() on a dumped file (stdout vs "
         "the model's de-duplicated list on the reloaded document); get_search_term is compared on every expression of length "
         "<= 3 over 13 characters.  Multi-document streams: 2-3 documents (the same document repeated, catalogue shapes, "
         "random documents) dumped into one file and searched by one yaml_paths.main() run; the lines printed for document N "
